@@ -44,7 +44,7 @@ def rule(fn, kind, expr, ordn, guards, contract):
         return guarded(need('strings.HasPrefix(descriptor, every)'), 'the slice starts at the length of a prefix the string has')
     if fn == 'cron.SpecSchedule.Next':
         if kind == 'goto':
-            return thm('C04Next', 'next_terminates', [])
+            return thm('C04Next', 'Kit.CronSpec.next_terminates', [])
         return '.typeInvariant "SpecSchedule.Location is set by Parse to time.Local or a loaded zone and t.Location() never returns nil: the *time.Location arguments are non-nil"'
     # ---------------- time ----------------
     if fn == 'time.ParseISO8601Duration':
